@@ -539,6 +539,7 @@ pub fn run_property(id: &str, tier: Tier) -> i32 {
         "C11" => return crate::numerics::run_c11(tier),
         "C12" => return crate::numerics::run_c12(tier),
         "C13" => return crate::c13::run_c13(tier),
+        "C10" => return crate::faults::run_c10(tier),
         _ => {}
     }
     eprintln!("unknown property {id}");
@@ -623,6 +624,7 @@ pub fn replay_file(path: &str) -> i32 {
         "C11-pairs" => Some(crate::numerics::replay_c11(&v["case"])),
         "C12-random" => Some(crate::numerics::replay_c12(&v["case"])),
         e if e.starts_with("C13-") => crate::c13::replay(e, &v["case"]),
+        e if e.starts_with("C10-") => crate::faults::replay(e, &v["case"]),
         _ => None,
     };
     if let Some(r) = simple {
